@@ -196,7 +196,7 @@ func verifRegexRules(from, count, maxL int) {
 			if got {
 				verifReach("c05.accepts")
 			}
-			verifAssert(!got || strings.Contains(req.URLLowerCase, r.Shortcut), "c05: an accepted URL contains the shortcut")
+			verifAssert(!got || strings.Contains(req.URLLowerCase, r.Shortcut), "c05: an accepted URL contains the shortcut ["+r.RuleText+"]")
 		}
 		verifReach("c05.rule")
 	}
@@ -219,16 +219,15 @@ func verifRegexRulesHost(from, count, maxL int) {
 		r := verifNativeRule(i)
 		for L := 1; L <= maxL; L++ {
 			h := verifString(vn("h", i, vn("_", L, "")), L, verifHostChars)
-			req := &Request{}
-			FillRequestForHostname(req, h)
-			if verifSymbolic() {
-				// the public suffix list plays no role for the pattern and the shortcut
-			}
+			// the fields FillRequestForHostname sets, minus the registrable domain
+			// (the public suffix list plays no role for the pattern and the shortcut; C17 covers it)
+			req := &Request{IsHostnameRequest: true, Hostname: h, URL: "http://" + h, RequestType: TypeDocument}
+			req.URLLowerCase = strings.ToLower(req.URL)
 			got := r.matchPattern(req)
 			if got {
 				verifReach("c05.host.accepts")
 			}
-			verifAssert(!got || strings.Contains(req.URLLowerCase, r.Shortcut), "c05: an accepted hostname request contains the shortcut")
+			verifAssert(!got || strings.Contains(req.URLLowerCase, r.Shortcut), "c05: an accepted hostname request contains the shortcut ["+r.RuleText+"]")
 		}
 	}
 }
